@@ -1,11 +1,13 @@
 #!/bin/sh
-# tools/ingest_seed.sh C01   -> copies /tmp/seed/C01/_seed/{a,b} to seeded/C01-{a,b} and tests them
+# [ROUND2=1|ROUND3=1] tools/ingest_seed.sh C01   -> copies /tmp/seed/C01/_seed/{a,b} to seeded/C01-{a,b} and tests them
 cd "$(dirname "$0")/.."
 ID=$1
 for v in a b; do
   src=/tmp/seed/$ID/_seed/$v
   [ -f $src/patch.diff ] || { echo "$ID-$v: no patch"; continue; }
-  n=$v; [ -n "$ROUND2" ] && { [ $v = a ] && n=c || n=d; }; dst=seeded/$ID-$n
+  n=$v; [ -n "$ROUND2" ] && { [ $v = a ] && n=c || n=d; }
+  [ -n "$ROUND3" ] && { [ $v = a ] && n=e || n=f; }
+  dst=seeded/$ID-$n
   mkdir -p $dst
   cp $src/patch.diff $src/demo.py $dst/ 2>/dev/null
   cp $src/notes.md $dst/notes.md 2>/dev/null
